@@ -137,7 +137,7 @@ theorem override_readback (y m d : Int) (h mi s j L : ℚ) (u u' : Option Bool) 
         have := compute_jde_kw_plain y m ((d : ℚ) + (h / 24.0 + mi / 1440.0 + s / 86400.0))
         rwa [show (0.0 : ℚ) = 0 by norm_num] at this
       simp only [hc, hz, Except.ok.injEq] at hj
-      rw [← hj, get_date_kw_override_zero, e, compute_jde_frac y m d _ hf0 hf1]
+      rw [← hj, get_date_kw_override_zero, e, compute_jde_frac y m d _ hf0 hf1 hv]
       exact get_date_valid y m d _ hv hf0 hf1
     · simp only [hc, compute_jde_kw_override _ _ _ _ hy1 hL, Except.ok.injEq] at hj
       rw [← hj, e]
